@@ -138,6 +138,33 @@ func (e *Engine) modelBuf(s *State, fr *Frame, dst *ssa.Call, key string, f *ssa
 		return Term{}, false
 	}
 	switch key {
+	case "encoding/binary.bigEndian.PutUint16", "encoding/binary.bigEndian.PutUint32", "encoding/binary.bigEndian.PutUint64":
+		// same semantics as the div/mod model in models.go, but the digits are fresh bytes tied to the value by one
+		// linear equation (digits in base 256 exist and are unique): read-back proofs (be32(b, k) == v) become linear
+		e.trustModel(key)
+		n := 2
+		if strings.HasSuffix(key, "32") {
+			n = 4
+		} else if strings.HasSuffix(key, "64") {
+			n = 8
+		}
+		sl := args[1].(Term)
+		v := args[2].(Term)
+		e.lenObl(s, fr, site, sl, n, shortKey(key))
+		mkey, msort := e.memKey(types.Typ[types.Uint8])
+		h := s.heapGet(mkey, msort)
+		base, off := App("s-base", SInt, sl), App("s-off", SInt, sl)
+		arr := Select(h, base)
+		var sum Term = IntLit(0)
+		for i := 0; i < n; i++ {
+			b := e.u.Fresh("putb", SInt)
+			s.assume(And(Le(IntLit(0), b), Le(b, IntLit(255))))
+			arr = Store(arr, Add(off, IntLit(int64(i))), b)
+			sum = Add(Mul(sum, IntLit(256)), b)
+		}
+		s.assume(Eq(sum, v))
+		s.heapSet(mkey, Store(h, base, e.u.Define("put", arr)))
+		return nil, true
 	case "bytes.NewBuffer":
 		e.trustModel(bufTrust + "; bytes.NewBuffer(b) starts with the contents of b")
 		b := args[0].(Term)
